@@ -799,12 +799,21 @@ func (s *Summ) execFrom(fr *frame, b *ssa.BasicBlock, idx int, from *ssa.BasicBl
 			// loop-body mode at the header: only follow the edge into the loop
 			if fr.bodyOf != nil && fr.depth == 0 && b == fr.bodyOf.Header {
 				inT, inF := fr.bodyOf.Blocks[b.Succs[0]], fr.bodyOf.Blocks[b.Succs[1]]
-				if inT && !inF {
-					s.execBlock(fr, b.Succs[0], b, st, k)
-					return
-				}
-				if inF && !inT {
-					s.execBlock(fr, b.Succs[1], b, st, k)
+				if inT != inF {
+					// the iteration is entered: record the loop condition as a fact of the body
+					// (not for range idioms, whose header condition is the bounds test)
+					if ri := analyseRange(fr.bodyOf); ri.Kind == "" {
+						c2 := cv
+						if inF {
+							c2 = negate(cv)
+						}
+						st.conds = append(st.conds, Cond{V: c2, Pos: pos, Blk: blockID(fr, b), Then: inT, NEv: len(st.events)})
+					}
+					if inT {
+						s.execBlock(fr, b.Succs[0], b, st, k)
+					} else {
+						s.execBlock(fr, b.Succs[1], b, st, k)
+					}
 					return
 				}
 			}
